@@ -18,6 +18,7 @@ import numpy as np
 
 import common
 import estim_gen as G
+import estim_translate
 from common import ModelErr, b2f, f2b, fs2b
 
 PROP = "C17"
@@ -1117,6 +1118,17 @@ def correspond(ctx, model):
     check_ord_variants(ctx, model)
 
 
+def generate(ctx):
+    """translator: signatures/defaults of power_iteration, operator_norm and the three estimate_parameters, the literal replacing
+    factor=None, the smallest budget, the ord tables of Diagonal/ScaledIdentity.norm and the statement skeletons of the eight
+    transcribed functions, read from the working tree with `ast`, against the model's tables"""
+    estim_translate.generate()
+    return [("Scico.Generated.EstimTables",
+             "defaults (maxiter, key, ratio, factor, x, z, B), factor=None replacement, budget check, ordfunc keys / remapping of "
+             "Diagonal.norm, branches of ScaledIdentity.norm, and the normalised statements of power_iteration, operator_norm, the three "
+             "estimate_parameters and the three norm methods equal the model's tables (Model/EstimSource.lean)")]
+
+
 def witness_zero_operator():
     """known finding `estimators-zero-operator`: for the zero operator the estimators silently return values that
     violate the documented strict inequalities (tau = sigma = inf, tau*sigma*||C||^2 = NaN; mu = 0, not > ||A||^2 = 0)"""
@@ -1149,7 +1161,22 @@ def search(ctx, model, why):
     """failing-input search on the implementation alone: the property oracles on fresh operators"""
     common.setup_scico()
     rng = ctx.rng
-    for _ in range(ctx.n(0, 120)):
+    if why is not None:
+        # a generated obligation no longer checks: look for a failing input with the oracles on fixed panels (any tier) —
+        # every order on the closed forms, the default arguments of the estimators, then fresh operators
+        for case in diag_cases(rng, 2) + sid_cases(rng, 2):
+            r = oracle(case)
+            if r is not None:
+                return {"case": case, "failing": r}
+        for desc in ({"kind": "matrix-real", "A": [[1.0, 2.0], [3.0, 4.0], [0.0, 1.0]]}, {"kind": "diag-real", "d": [3.0, -1.0, 0.5]}):
+            for case in ({"what": "pdhg", "desc": desc, "ratio": 1.0, "factor": "default", "maxiter": 20, "key": 1},
+                         {"what": "pdhg", "desc": desc, "ratio": 4.0, "factor": None, "maxiter": 20, "key": 1},
+                         {"what": "padmm", "A": desc, "B": None, "factor": "default", "maxiter": 20, "key": 1},
+                         {"what": "opnorm", "desc": desc, "key": 1, "budgets": [0, 1, 2, 3, 5, 8, 20]}):
+                r = oracle(case)
+                if r is not None:
+                    return {"case": case, "failing": r}
+    for _ in range(ctx.n(0, 120) if why is None else 40):
         desc = G.gen_operator(rng)
         case = {"what": "opnorm", "desc": desc, "key": int(rng.integers(0, 50)), "budgets": [0, 1, 2, 3, 5, 8, 13, 21, 34]}
         ctx.count("search:opnorm-ladders")
